@@ -241,6 +241,32 @@ pub fn drive_builder(a: &Args) {
         }
         out.emit(builder_record(&calls, ""));
     }
+    // conflicting labels in every shape of overlap, added at the beginning / in the middle / at the end of a
+    // complete specification: identical interval, nested, spanning two, touching one character at 0 / at MAX_CHAR
+    {
+        let cells: Vec<(u32, u32)> = vec![(0, 0x2F), (0x30, 0x39), (0x3A, 0x60), (0x61, MAX_CHAR)];
+        let extras: Vec<(u32, u32)> = vec![
+            (0x30, 0x39), (0x32, 0x35), (0x35, 0x3C), (0, 0), (MAX_CHAR, MAX_CHAR), (0x2F, 0x30), (0, MAX_CHAR), (0x39, 0x39), (0x30, 0x30),
+        ];
+        for &(x, y) in &extras {
+            for pos in 0..3usize {
+                for same_target in [false, true] {
+                    let mut adds: Vec<Call> = cells.iter().enumerate().map(|(i, &(lo, hi))| Call::Add(0, lo, hi, (i as u32) % 3)).collect();
+                    // the target of the cell that contains x (for the same-target variant: no conflict at x)
+                    let ci = cells.iter().position(|&(lo, hi)| lo <= x && x <= hi).unwrap() as u32;
+                    let t = if same_target { ci % 3 } else { (ci + 1) % 3 };
+                    let at = [0, 2, adds.len()][pos];
+                    adds.insert(at, Call::Add(0, x, y, t));
+                    let mut calls = vec![Call::New(0)];
+                    calls.extend(adds);
+                    calls.push(Call::Def(1, 1));
+                    calls.push(Call::Def(2, 0));
+                    calls.push(Call::Fin(2));
+                    out.emit(builder_record(&calls, ""));
+                }
+            }
+        }
+    }
     // many states (6..33): a cycle on the low characters, a self loop on one letter, the default jumps; a few
     // unreachable states; calls in a shuffled order
     for &n in &[6u32, 9, 16, 17, 33] {
